@@ -45,11 +45,15 @@ Definition fast_is (b : bool) (pgn : Z) : bool :=
   match tbl_is_fast code_fast pgn with Ok (Some a) => Bool.eqb a b | _ => false end.
 Definition no_plain_name (pgn : Z) : bool :=
   match find_fname (pgn, @None Defn.str) code_enc with None => true | Some _ => false end.
-(* d is inside C02_roundtrip and has no FLOAT field; not the address claim; when its PGN has a dispatcher: every match
-   field of the group sits on a field of d, and no function `encode_pgn_<PGN>` shadows `encode_pgn_<PGN>_<id>` *)
+(* d is inside C02_roundtrip and has no FLOAT field; not the address claim; when its PGN has a dispatcher: the database's
+   Match rule cannot tell the re-encoded payload from the original one (every bit of every match field of the group lies in
+   a field of d, or — d not being a fallback — every other definition is a fallback, has its match bits inside fields of
+   d, or prescribes a different value than d for some bit), and no function `encode_pgn_<PGN>` shadows
+   `encode_pgn_<PGN>_<id>` *)
+Definition sel_kept (g : list dbdef) (d : dbdef) : bool := match_covered g d || sel_stable g d.
 Definition cond_common (g : list dbdef) (d : dbdef) : bool :=
   encodable d && simple_def d && rt_def_ok d && no_float d && negb (Defn.d_pgn d =? 60928)
-  && (negb (is_dispatched g) || (match_covered g d && no_plain_name (Defn.d_pgn d))).
+  && (negb (is_dispatched g) || (sel_kept g d && no_plain_name (Defn.d_pgn d))).
 Definition cov_gen (gs : list (list dbdef)) (c : list dbdef -> dbdef -> bool) : list (list dbdef * dbdef) :=
   flat_map (fun g => map (fun d => (g, d)) (filter (c g) (bound_defs g))) gs.
 Definition cov := cov_gen db_groups.
@@ -139,9 +143,11 @@ Proof.
     apply andb_true_iff in Sf. destruct Sf as [Sf _]. apply andb_true_iff in Sf. destruct Sf as [Sf _].
     apply andb_true_iff in Sf. destruct Sf as [Sf _]. apply andb_true_iff in Sf. destruct Sf as [So Sl].
     apply Z.leb_le in So, Sl.
-    rewrite <- (decode_int_bits x off len), <- (decode_int_bits p off len) by lia. exact (R1 x Rx f off len Hin Eo Elf Ex). }
+    assert (Hl0 : 0 <= len) by (apply Z.le_trans with 1; [exact Z.le_0_1 | exact Sl]).
+    rewrite <- (decode_int_bits x off len So Hl0), <- (decode_int_bits p off len So Hl0).
+    exact (R1 x Rx f off len Hin Eo Elf Ex). }
   exists ce, x. split; [exact Fe|].
-  assert (Dn : is_dispatched g = true -> match_covered g d = true /\ no_plain_name (Defn.d_pgn d) = true).
+  assert (Dn : is_dispatched g = true -> sel_kept g d = true /\ no_plain_name (Defn.d_pgn d) = true).
   { intros D. rewrite D in Cd. cbn [negb orb] in Cd. apply andb_true_iff in Cd. exact Cd. }
   split.
   { intros D. destruct (Dn D) as [_ Np]. unfold no_plain_name in Np.
@@ -149,8 +155,9 @@ Proof.
   split; [exact Ep|]. split; [exact Ei|]. split; [exact Rx|]. split; [exact El|]. split; [exact X0|]. split; [exact Xn|].
   split.
   - rewrite (spec_decode_agree SL SLB p x d Ag). exact S.
-  - intros D. destruct (Dn D) as [Mc _].
-    rewrite (match_covered_sound g d p x Mc (fun f off len Hin Eo Elf _ => Ag f off len Hin Eo Elf)). exact (Sel D).
+  - intros D. destruct (Dn D) as [Mc _]. unfold sel_kept in Mc. apply orb_true_iff in Mc. destruct Mc as [Mc | Ms].
+    + rewrite (match_covered_sound g d p x Mc (fun f off len Hin Eo Elf _ => Ag f off len Hin Eo Elf)). exact (Sel D).
+    + exact (sel_stable_sound g d p x Ms (fun f off len Hin Eo Elf _ => Ag f off len Hin Eo Elf) (Sel D)).
 Qed.
 
 (* the message the caller of the decoder receives for the decoded content m of definition d *)
@@ -200,7 +207,7 @@ Proof.
 Qed.
 
 (* ====================================================================== single frame: EByte and USB *)
-Theorem ENC_E2E_ebyte : forall g d, In (g, d) enc_single ->
+Theorem ENC_E2E_ebyte : forall g d, In g db_groups -> In d (bound_defs g) -> c_single g d = true ->
   forall p m, spec_decode SL SLB p d = Ok m -> (is_dispatched g = true -> spec_select g p = Some d) ->
   forall src dst prio seq, 0 <= src < 256 -> 0 <= dst < 256 -> 0 <= prio < 8 ->
   exists pkt, enc_step_here FEbyte seq (emsg_of m src dst prio) = (Ok [pkt], seq) /\ length pkt = 13%nat /\
@@ -208,8 +215,7 @@ Theorem ENC_E2E_ebyte : forall g d, In (g, d) enc_single ->
       dec_step_here ts_ok cfg0 st {| e_fmt := WTcp; e_data := pkt; e_win := win |}
       = (st, returned d m src (if is_pdu1 (Defn.d_pgn d) then dst else 255) prio (zlookup src (srcmap st))).
 Proof.
-  intros g d Hin p m S Sel src dst prio seq Hs Hd' Hq.
-  destruct (cov_in _ g d Hin) as [Hg [Hd C]]. clear Hin. unfold c_single, c_acti, c_fast in C.
+  intros g d Hg Hd C p m S Sel src dst prio seq Hs Hd' Hq. unfold c_single, c_acti, c_fast in C.
   apply andb_true_iff in C. destruct C as [C Cf]. apply andb_true_iff in C. destruct C as [C Cc].
   apply andb_true_iff in C. destruct C as [Cm Cl].
   destruct (len_in_inv _ _ _ Cl) as [n [Ln Hn]]. pose proof (fast_is_inv _ _ Cf) as Hf.
@@ -227,7 +233,7 @@ Proof.
 Qed.
 Print Assumptions ENC_E2E_ebyte.
 
-Theorem ENC_E2E_usb : forall g d, In (g, d) enc_single ->
+Theorem ENC_E2E_usb : forall g d, In g db_groups -> In d (bound_defs g) -> c_single g d = true ->
   forall p m, spec_decode SL SLB p d = Ok m -> (is_dispatched g = true -> spec_select g p = Some d) ->
   forall src dst prio seq, 0 <= src < 256 -> 0 <= dst < 256 -> 0 <= prio < 8 ->
   exists pkt, enc_step_here FUsb seq (emsg_of m src dst prio) = (Ok [pkt], seq) /\ length pkt = 20%nat /\
@@ -235,8 +241,7 @@ Theorem ENC_E2E_usb : forall g d, In (g, d) enc_single ->
       dec_step_here ts_ok cfg0 st {| e_fmt := WUsb; e_data := pkt; e_win := win |}
       = (st, returned d m src (if is_pdu1 (Defn.d_pgn d) then dst else 255) prio (zlookup src (srcmap st))).
 Proof.
-  intros g d Hin p m S Sel src dst prio seq Hs Hd' Hq.
-  destruct (cov_in _ g d Hin) as [Hg [Hd C]]. clear Hin. unfold c_single, c_acti, c_fast in C.
+  intros g d Hg Hd C p m S Sel src dst prio seq Hs Hd' Hq. unfold c_single, c_acti, c_fast in C.
   apply andb_true_iff in C. destruct C as [C Cf]. apply andb_true_iff in C. destruct C as [C Cc].
   apply andb_true_iff in C. destruct C as [Cm Cl].
   destruct (len_in_inv _ _ _ Cl) as [n [Ln Hn]]. pose proof (fast_is_inv _ _ Cf) as Hf.
@@ -255,7 +260,7 @@ Qed.
 Print Assumptions ENC_E2E_usb.
 
 (* ====================================================================== Actisense: every PGN, whole payload *)
-Theorem ENC_E2E_actisense : forall g d, In (g, d) enc_acti ->
+Theorem ENC_E2E_actisense : forall g d, In g db_groups -> In d (bound_defs g) -> c_acti g d = true ->
   forall p m, spec_decode SL SLB p d = Ok m -> (is_dispatched g = true -> spec_select g p = Some d) ->
   forall src dst prio seq, 0 <= src < 256 -> 0 <= dst < 256 -> 0 <= prio < 8 ->
   exists line, enc_step_here FActi seq (emsg_of m src dst prio) = (Ok [line], seq) /\
@@ -264,8 +269,7 @@ Theorem ENC_E2E_actisense : forall g d, In (g, d) enc_acti ->
       dec_step_here ts_ok cfg0 st {| e_fmt := WActi; e_data := acti_ts sec ms ++ [32] ++ line; e_win := win |}
       = (st, returned d m src dst prio (zlookup src (srcmap st))).
 Proof.
-  intros g d Hin p m S Sel src dst prio seq Hs Hd' Hq.
-  destruct (cov_in _ g d Hin) as [Hg [Hd C]]. clear Hin. unfold c_single, c_acti, c_fast in C.
+  intros g d Hg Hd C p m S Sel src dst prio seq Hs Hd' Hq. unfold c_single, c_acti, c_fast in C.
   apply andb_true_iff in C. destruct C as [C Ch]. apply andb_true_iff in C. destruct C as [C Cl0].
   apply andb_true_iff in C. destruct C as [Cm Cl]. apply Z.leb_le in Cl0. apply Z.ltb_lt in Ch.
   destruct (len_in_inv _ _ _ Cl) as [n [Ln Hn]].
@@ -295,7 +299,7 @@ Qed.
 Print Assumptions ENC_E2E_actisense.
 
 (* ====================================================================== fast packet, frame formats *)
-Theorem ENC_E2E_fast_frames : forall g d, In (g, d) enc_fast ->
+Theorem ENC_E2E_fast_frames : forall g d, In g db_groups -> In d (bound_defs g) -> c_fast g d = true ->
   forall p m, spec_decode SL SLB p d = Ok m -> (is_dispatched g = true -> spec_select g p = Some d) ->
   forall src dst prio seq, 0 <= src < 256 -> 0 <= dst < 256 -> 0 <= prio < 8 -> 0 <= seq < 8 ->
   exists payload,
@@ -311,8 +315,7 @@ Theorem ENC_E2E_fast_frames : forall g d, In (g, d) enc_fast ->
                    (dok payload = true -> st' = None)) /\
     next_seq seq <> seq.
 Proof.
-  intros g d Hin p m S Sel src dst prio seq Hs Hd' Hq Hseq.
-  destruct (cov_in _ g d Hin) as [Hg [Hd C]]. clear Hin. unfold c_single, c_acti, c_fast in C.
+  intros g d Hg Hd C p m S Sel src dst prio seq Hs Hd' Hq Hseq. unfold c_single, c_acti, c_fast in C.
   apply andb_true_iff in C. destruct C as [C Cf]. apply andb_true_iff in C. destruct C as [C Cc].
   apply andb_true_iff in C. destruct C as [Cm Cl].
   destruct (len_in_inv _ _ _ Cl) as [n [Ln Hn]]. pose proof (fast_is_inv _ _ Cf) as Hf.
@@ -321,8 +324,9 @@ Proof.
   destruct (enc_fast_frames code_enc code_enc_lookups code_fast g d ce m x n src dst prio seq Fe Np Ep Ei Rx
               ltac:(rewrite El; exact Ln) Hn ltac:(split; [exact X0 | apply Xn; [exact Ln | lia]]) Hh Hseq Hf)
     as [Li [A [B [R Ne]]]].
-  exists (le_bytes (Z.to_nat n) x). rewrite Li.
-  split; [exact Sx|]. split; [exact Selx|]. cbv zeta. split; [exact A|]. split; [exact B|]. split; [exact R | exact Ne].
+  exists (le_bytes (Z.to_nat n) x).
+  split; [rewrite Li; exact Sx|]. split; [rewrite Li; exact Selx|].
+  exact (conj A (conj B (conj R Ne))).
 Qed.
 Print Assumptions ENC_E2E_fast_frames.
 
@@ -332,7 +336,7 @@ Eval vm_compute in (99999%Z, length OblC02.enc_defs, length enc_acti, length enc
    field not on a field / a plain encode_pgn_<PGN> exists, Length missing or outside 1..223) *)
 Eval vm_compute in
   flat_map (fun g => map (fun d => (Defn.d_pgn d, negb (simple_def d && rt_def_ok d), negb (no_float d), Defn.d_pgn d =? 60928,
-                                    is_dispatched g && negb (match_covered g d && no_plain_name (Defn.d_pgn d)), negb (len_in 1 223 d)))
+                                    is_dispatched g && negb (sel_kept g d && no_plain_name (Defn.d_pgn d)), negb (len_in 1 223 d)))
                          (filter (fun d => encodable d && negb (c_acti g d)) (bound_defs g)))
            db_groups.
 
@@ -341,7 +345,7 @@ Definition ex_data : list Z := [1; 16; 39; 0; 0; 255; 127; 253].
 Definition ex_g : list dbdef := match find (fun g => group_pgn g =? 127250) db_groups with Some g => g | None => [] end.
 Definition ex_d : dbdef := match rev (bound_defs ex_g) with d :: _ => d | [] => mkDb 0 0 0 0 false None None [] end.
 Example ENC_E2E_nonvacuous :
-  In (ex_g, ex_d) enc_single /\
+  In ex_g db_groups /\ In ex_d (bound_defs ex_g) /\ c_single ex_g ex_d = true /\
   exists m, spec_decode SL SLB (le_int ex_data) ex_d = Ok m /\
     enc_step_here FEbyte 5 (emsg_of m 35 255 2) = (Ok [136 :: be4 (2 * 67108864 + 127250 * 256 + 35) ++ ex_data], 5) /\
     exists r, dec_step_here (fun _ _ => false) cfg0 init
@@ -355,12 +359,11 @@ Proof.
   assert (Hd : In ex_d (bound_defs ex_g)).
   { unfold ex_d. destruct (rev (bound_defs ex_g)) as [|d0 r] eqn:E; [exfalso; vm_compute in E; discriminate|].
     apply in_rev. rewrite E. left. reflexivity. }
-  assert (Hin : In (ex_g, ex_d) enc_single).
-  { apply (cov_gen_intro db_groups c_single ex_g ex_d Hg Hd). vm_compute. reflexivity. }
-  split; [exact Hin|].
+  assert (Hc : c_single ex_g ex_d = true) by (vm_compute; reflexivity).
+  split; [exact Hg|]. split; [exact Hd|]. split; [exact Hc|].
   destruct (spec_decode SL SLB (le_int ex_data) ex_d) as [m| |] eqn:S; [|exfalso; vm_compute in S; discriminate ..].
   exists m. split; [reflexivity|].
-  destruct (ENC_E2E_ebyte ex_g ex_d Hin (le_int ex_data) m S ltac:(intros D; exfalso; vm_compute in D; discriminate)
+  destruct (ENC_E2E_ebyte ex_g ex_d Hg Hd Hc (le_int ex_data) m S ltac:(intros D; exfalso; vm_compute in D; discriminate)
               35 255 2 5 ltac:(lia) ltac:(lia) ltac:(lia)) as [pkt [E [_ Dk]]].
   assert (Ek : pkt = 136 :: be4 (2 * 67108864 + 127250 * 256 + 35) ++ ex_data).
   { assert (X : fst (enc_step_here FEbyte 5 (emsg_of m 35 255 2)) = Ok [136 :: be4 (2 * 67108864 + 127250 * 256 + 35) ++ ex_data]).
